@@ -175,3 +175,12 @@ func Params() *config.Configuration {
 	p.DPoSConfiguration.CRCArbiters = p.DPoSConfiguration.CRCArbiters[0:2]
 	return p
 }
+
+// ParamsLongReview is Params with a council review of 9 blocks instead of 2: a proposal
+// registered in the last block before the voting period (19) is decided in the very block in
+// which the next committee takes office (28).
+func ParamsLongReview() *config.Configuration {
+	p := Params()
+	p.CRConfiguration.ProposalCRVotingPeriod = 9
+	return p
+}
